@@ -93,7 +93,7 @@ def check_list_discipline(chk, prog, eff):
                                         '%s frees items inside a %s loop and keeps iterating: the next step reads the freed node' % (k[1], x.get('_mac')),
                                         line=x.get('_l')))
     chk.rule('C16.list-discipline', 'items are linked only by list_add_tail(&item->node, &set->head); unlinked by list_del in one destructor; '
-                                    'no freeing inside a non-safe iteration', n, bad, floor=6)
+                                    'no freeing inside a non-safe iteration', n, bad, floor=4)
     return destructors[0]
 
 
